@@ -26,8 +26,10 @@
 (*                                                                         *)
 (* n, k, f, t, nm stay SYMBOLIC inside the constant bounds, so one         *)
 (* Apalache run covers every configuration with n <= MaxN at once.  The    *)
-(* proof for ALL n, k, f, t is in KFoldIdx.tla (pointwise, unbounded       *)
-(* integers, Apalache) and KFoldProofs.tla (TLAPS).                        *)
+(* proof for ALL n, k, f, t is threefold: KFoldIndProofs.tla (TLAPS, this  *)
+(* very module with arbitrary constants), KFoldIdx.tla (Apalache,          *)
+(* pointwise, unbounded integers), KFoldProofs.tla (TLAPS, SwapBlocks on   *)
+(* arbitrary sequences).                                                   *)
 (*                                                                         *)
 (* IndInv says that the buffers are a closed-form function of the control  *)
 (* state: the original layout at fold boundaries, the original layout      *)
